@@ -242,6 +242,19 @@ func init() {
 				}
 				return call(fr.th, fr, fr.fn.Pos(), newFn, nil)
 			}
+			take := func(i int) value {
+				v := items[i]
+				m.pools[p] = append(append([]value{}, items[:i]...), items[i+1:]...)
+				if m.race != nil {
+					// sync.Pool: a Put happens before the Get that returns the same object
+					vcs := m.poolVC[p]
+					if i < len(vcs) {
+						m.race.acquire(fr.th, vcs[i])
+						m.poolVC[p] = append(append([]vclock{}, vcs[:i]...), vcs[i+1:]...)
+					}
+				}
+				return v
+			}
 			switch m.poolMode {
 			case 0:
 				return callNew()
@@ -249,17 +262,13 @@ func init() {
 				if len(items) == 0 {
 					return callNew()
 				}
-				v := items[len(items)-1]
-				m.pools[p] = items[:len(items)-1]
-				return v
+				return take(len(items) - 1)
 			default:
 				c := m.choose(len(items)+1, 'c')
 				if c == 0 {
 					return callNew()
 				}
-				v := items[c-1]
-				m.pools[p] = append(append([]value{}, items[:c-1]...), items[c:]...)
-				return v
+				return take(c - 1)
 			}
 		},
 		"(*sync.Pool).Put": func(fr *frame, a []value) value {
@@ -272,6 +281,12 @@ func init() {
 				return nil
 			}
 			m.pools[p] = append(m.pools[p], a[1])
+			if m.race != nil {
+				for len(m.poolVC[p]) < len(m.pools[p])-1 {
+					m.poolVC[p] = append(m.poolVC[p], nil)
+				}
+				m.poolVC[p] = append(m.poolVC[p], m.race.release(fr.th))
+			}
 			return nil
 		},
 
